@@ -111,7 +111,7 @@ def describe(v):
         return ("real",)
     if isinstance(v, tuple) and type(v) is tuple:
         return ("tuple", tuple(describe(e) for e in v))
-    return ("obj", id(v))
+    return ("obj", type(v).__name__)   # not the address: descriptors must be stable across paths and runs
 
 
 def _subsume(descs):
